@@ -201,6 +201,54 @@ func runSelfTest(verif string) int {
 		}, nil, 1)
 		expect("E-PAIR exactly one release on every path", bad == nil && np >= 2, true)
 	}
+	// --- cross-function resolution ---
+	theProgSaved := theProg
+	theProg = p
+	resetInterpMemo()
+	guardDeep := func(name string, want bool) {
+		f := need(name)
+		if f == nil {
+			return
+		}
+		var call *ssa.Call
+		for _, ci := range callsIn(f) {
+			if calleeName(ci) == "fixture.produce" {
+				call, _ = ci.(*ssa.Call)
+			}
+		}
+		sinks := deepCalls(f, 2, "fixture.sink")
+		if call == nil || len(sinks) != 1 {
+			expect("X-FN "+name+" shape", false, true)
+			return
+		}
+		spec := sEq(true, func(v ssa.Value) bool { return isResultOfCall(v, call, 1) }, isNilConst)
+		edges := predEdgesS(f, []condSpec{spec}, 2)
+		path := reachableWithout(f, sinks[0].Top, edges)
+		expect("X-FN "+name+": sink reachable without err == nil (boolean helper / helper call site)", path != nil, want)
+	}
+	guardDeep("guardViaHelperGood", false)
+	guardDeep("guardViaHelperBad", true)
+	guardDeep("sinkInHelper", false)
+	isRel := func(in ssa.Instruction) bool {
+		ci, ok := in.(*ssa.Call)
+		return ok && calleeName(ci) == "fixture.release"
+	}
+	if f := need("releaseViaHelperOnce"); f != nil {
+		bad, _, _ := pathEventCountsDeep(f, isRel, func(*ssa.Function) []Edge { return nil }, 1, 2)
+		expect("X-FN path counts through a helper: exactly one release on every path", bad == nil, true)
+	}
+	if f := need("releaseViaHelperTwice"); f != nil {
+		bad, got, _ := pathEventCountsDeep(f, isRel, func(*ssa.Function) []Edge { return nil }, 1, 2)
+		expect("X-FN path counts through a helper: a path with two releases is found", bad != nil && got == 2, true)
+	}
+	if f := need("passViaBoolHelperGood"); f != nil {
+		expect("X-FN must-pass through a boolean helper (returns false only after release)", escapesWithout(f.Blocks[0], isRel) == nil, true)
+	}
+	if f := need("passViaBoolHelperBad"); f != nil {
+		expect("X-FN must-pass through a boolean helper: the claimed path without release is found", escapesWithout(f.Blocks[0], isRel) != nil, true)
+	}
+	theProg = theProgSaved
+	resetInterpMemo()
 	fmt.Printf("== selftest: %d cases, %d failed\n", n, fails)
 	if fails > 0 {
 		fmt.Println("CHECK-BROKEN: analyser self-test failed")
